@@ -63,11 +63,15 @@ def compile_hashes(progs, wd, flavour, name):
 
 FIXED_DRAWS = """LIST L0 = (ap), (aq), ar
 LIST L1 = (bp), bq
+LIST Kettle = cold, warm, ready
+LIST Guest = away, ready, seated, fed
 VAR lmix = ()
 VAR n = 0
+VAR now = ready
 -> k0
 == k0 ==
 ~ lmix = (ap, bp)
+{now}: {LIST_VALUE(now)} {LIST_ALL(now)} {now + 1}
 {LIST_RANDOM(L0)} {LIST_RANDOM(L1)} {LIST_RANDOM(lmix)} {LIST_MIN(lmix)} {LIST_MAX(lmix)} {RANDOM(1, 6)}
 {~one|two|three} {LIST_RANDOM(L0 + ar)}
 * [again]
@@ -99,10 +103,10 @@ def run(tier, seed):
         g["unbound_probe"] = True
         g["id"] += "-unbound"
         progs.append(g)
-    # one fixed story that draws from non-empty lists on every path (whatever the generator's dice say: a draw that is
+    # one fixed story that draws from non-empty lists on every path (and names, unqualified, an item that two lists declare) (whatever the generator's dice say: a draw that is
     # wrong in one build profile only must show under every VERIF_SEED)
     fixed = dict(common.gen_programs(1, seed + 4, vars=1)[0])
-    fixed.update(id="c03-fixed-draws", lists=[], src=FIXED_DRAWS, globals=["lmix", "n"], ints=["n"], bools=[], strs=[], externals=[], flows=[])
+    fixed.update(id="c03-fixed-draws", lists=[], src=FIXED_DRAWS, globals=["lmix", "n", "now"], ints=["n"], bools=[], strs=[], externals=[], flows=[])
     progs.append(fixed)
     corpus = [c for c in common.corpus_programs() if any(k in c["id"] for k in ("lists/", "shuffle", "rnd", "random"))]
     progs += corpus if not quick else corpus[:8]
